@@ -105,7 +105,9 @@ func runSemSpec(c *Ctx, s *semSpec) error {
 		if r.CacheOn {
 			pool.close() // nothing is in flight while the switch changes
 			plush.CacheEnabled = true
-			pool = newPool(12, run)
+			// one worker: equal texts are ONE parsed template now, and what these cases decide is the sequential meaning
+			// (executions of one template at the same time are C14's subject)
+			pool = newPool(1, run)
 			p := pool
 			feed = func(raw json.RawMessage) {
 				if n := len(raw); n > 1 && raw[n-1] == '}' {
